@@ -1,7 +1,7 @@
 """C01 — event onsets fall on the exact tick of their cumulative duration, drift-free.
 Theorems: coq/Props/C01.v over the scheduler model (coq/Sched/Model.v).  Correspondence: histories
 (ticks; schedule with quantize/delay; ticks; optional nudge; ticks) run on isobar's Timeline/Track and on the model
-inside Coq; long runs (> 10^6 ticks) included.  Oracle: closed form of the onset tick with exact fractions.
+inside Coq; long runs included (quick 3*10^5 / 6*10^5 ticks, thorough 5*10^6).  Oracle: closed form of the onset tick with exact fractions.
 Widened histories (Sched/Retick.v, theorems C01_retick_* / C01_self_nudge): the resolution is re-configured between
 ticks (`timeline.ticks_per_beat = N`, once or twice, on and off the new grid), and events nudge their own track
 re-entrantly (from their action, from a track event callback, from Timeline.on_event_callback); driver
@@ -14,12 +14,14 @@ import sched_common as S
 import sched_gen as G
 from fractions import Fraction as F
 from math import ceil, gcd
+import re
+from concurrent.futures import ThreadPoolExecutor
 
 PROP = "C01"
 META = {
  "engine": "S-scheduler",
- "text": "Coq theorems (Props/C01.v) about the executable model of Track.tick/Timeline.tick (Sched/Model.v), for ALL tick lengths, all event streams with durations >= 1 tick (on or off the tick grid, finite or cyclic) and ALL run lengths (induction over the number of ticks, no bound): event k is performed exactly once, on the first tick at or after start + exact sum of the preceding durations; each onset depends only on that sum (no compounding of rounding); a nudge by x shifts every later onset to the first tick at or after the shifted time; Timeline/Track time after n ticks is n ticks. The model is tied to /repo on every run by a correspondence check: random histories at 9 resolutions incl. off-grid durations (0.1, 1/3, 5/7 ...), quantized/delayed starts, nudges, and runs of 1.2*10^6 ticks (quick) are executed on the real Timeline with a recording OutputDevice and inside Coq (vm_compute) on the model and compared call by call and tick by tick; an independent exact-fraction oracle judges every implementation trace. Widened (Sched/Retick.v, RetickProofs.v; theorems C01_retick_onsets, C01_retick_two_segments, C01_self_nudge, C01_retick_timeline_time, about Timeline.tick itself on a single-track timeline): the tick length may change before EVERY tick (any schedule of resolutions) - tick times are the exact cumulative sums of the tick lengths, for the track and for the timeline - and every event may nudge its own track re-entrantly from inside its own performance: event k is performed on tick j iff tick j is the first tick at or after start + exact sum of the preceding durations and self-nudges. Correspondence strata: histories with one or two `timeline.ticks_per_beat = N` assignments between ticks (before/after scheduling, on and off the new grid, with API reads in between) and tracks whose events nudge their own track from an action / a track event callback / Timeline.on_event_callback, run on the real Timeline (harness/impl/c01_impl.py) and on the model (run_segs, one configuration per segment). Ticks cut short by an exception (Sched/ClockStepProofs.v; theorems C01_survivors_advance, C01_clocks_in_step, for EVERY reachable state and every history, any number of tracks, callbacks, faults in tolerant or intolerant mode): after a completed Timeline.tick every started track that is still scheduled has had its clock advanced by exactly one tick, hence Track.current_time = Timeline.current_time - start for every surviving track; stratum: 1-3 tracks (notes, controls, program changes, actions, some raising), the n-th device call raises (OSError family or another class; a second fault later), or a pattern raises, tolerant and intolerant; the oracle judges the onsets of every track and the clocks of the survivors. Resolutions that are multiples of 512 (512 ... 3584: the tick grid sits on decimal ties of round(., 8)) with one-tick and mixed durations (0.2, 1/512, 0.1) are part of the ordinary strata.",
- "note": "Trusted: Coq kernel+VM; the Python harness; harness/gen_tables_time.py (ast translator of the time-advance and due-test expressions of timeline.py/track.py/util.py into Generated/TablesTime.v). The scheduler model computes in exact integer units (round(x, 8) comparisons are exact on grids below 10^8 units per beat, Base/Round8.v). The binary64 arithmetic of isobar's clock and due test is no longer only validated: Props/C01Float.v (Base/FloatGrid*.v, FloatDue*.v, Flocq) proves for the terms generated from the source that the float time after n ticks is the correctly rounded n/tpb (tpb <= 2^20, n <= 2^32), that after a change of resolution every tick lasts one new tick, and that the float due test and the whole float run of Track.tick decide exactly like exact arithmetic at every resolution under a stated error budget (admissible'); these theorems depend on the standard library's axioms of the classical reals (sig_forall_dec, sig_not_dec, functional_extensionality_dep, classic), listed in the evidence. Modelling assumptions of that layer, not proved: one correctly rounded binary64 operation per Python float operation, float(duration) is the nearest double, round(x, 8) is correctly rounded decimal rounding, int/int true division is correctly rounded. Runs beyond the error budget (more than about 1.5*10^7 event-beats) and float nudges are validated by the correspondence runs (> 10^6 ticks) only.",
+ "text": "Coq theorems (Props/C01.v) about the executable model of Track.tick/Timeline.tick (Sched/Model.v), for ALL tick lengths, all event streams with durations >= 1 tick (on or off the tick grid, finite or cyclic) and ALL run lengths (induction over the number of ticks, no bound): event k is performed exactly once, on the first tick at or after start + exact sum of the preceding durations; each onset depends only on that sum (no compounding of rounding); a nudge by x shifts every later onset to the first tick at or after the shifted time; Timeline/Track time after n ticks is n ticks. The model is tied to /repo on every run by a correspondence check: random histories at 9 resolutions incl. off-grid durations (0.1, 1/3, 5/7 ...), quantized/delayed starts, nudges, and long runs (quick: 3*10^5 ticks at 24 PPQN and 6*10^5 at 480 PPQN, beyond the point at which the repaired float drift showed; thorough: eight runs of 5*10^6 ticks) are executed on the real Timeline with a recording OutputDevice and inside Coq (vm_compute) on the model and compared call by call and tick by tick; an independent exact-fraction oracle judges every implementation trace. Widened (Sched/Retick.v, RetickProofs.v; theorems C01_retick_onsets, C01_retick_two_segments, C01_self_nudge, C01_retick_timeline_time, about Timeline.tick itself on a single-track timeline): the tick length may change before EVERY tick (any schedule of resolutions) - tick times are the exact cumulative sums of the tick lengths, for the track and for the timeline - and every event may nudge its own track re-entrantly from inside its own performance: event k is performed on tick j iff tick j is the first tick at or after start + exact sum of the preceding durations and self-nudges. Correspondence strata: histories with one or two `timeline.ticks_per_beat = N` assignments between ticks (before/after scheduling, on and off the new grid, with API reads in between) and tracks whose events nudge their own track from an action / a track event callback / Timeline.on_event_callback, run on the real Timeline (harness/impl/c01_impl.py) and on the model (run_segs, one configuration per segment). Ticks cut short by an exception (Sched/ClockStepProofs.v; theorems C01_survivors_advance, C01_clocks_in_step, for EVERY reachable state and every history, any number of tracks, callbacks, faults in tolerant or intolerant mode): after a completed Timeline.tick every started track that is still scheduled has had its clock advanced by exactly one tick, hence Track.current_time = Timeline.current_time - start for every surviving track; stratum: 1-3 tracks (notes, controls, program changes, actions, some raising), the n-th device call raises (OSError family or another class; a second fault later), or a pattern raises, tolerant and intolerant; the oracle judges the onsets of every track and the clocks of the survivors. Resolutions that are multiples of 512 (512 ... 3584: the tick grid sits on decimal ties of round(., 8)) with one-tick and mixed durations (0.2, 1/512, 0.1) are part of the ordinary strata.",
+ "note": "Trusted: Coq kernel+VM; the Python harness; harness/gen_tables_time.py (ast translator of the time-advance and due-test expressions of timeline.py/track.py/util.py into Generated/TablesTime.v). The scheduler model computes in exact integer units (round(x, 8) comparisons are exact on grids below 10^8 units per beat, Base/Round8.v). The binary64 arithmetic of isobar's clock and due test is no longer only validated: Props/C01Float.v (Base/FloatGrid*.v, FloatDue*.v, Flocq) proves for the terms generated from the source that the float time after n ticks is the correctly rounded n/tpb (tpb <= 2^20, n <= 2^32), that after a change of resolution every tick lasts one new tick, and that the float due test and the whole float run of Track.tick decide exactly like exact arithmetic at every resolution under a stated error budget (admissible'); these theorems depend on the standard library's axioms of the classical reals (sig_forall_dec, sig_not_dec, functional_extensionality_dep, classic), listed in the evidence. Modelling assumptions of that layer, not proved: one correctly rounded binary64 operation per Python float operation, float(duration) is the nearest double, round(x, 8) is correctly rounded decimal rounding, int/int true division is correctly rounded. Runs beyond the error budget (more than about 1.5*10^7 event-beats) and float nudges are validated by the correspondence runs (the long runs; > 10^6 ticks in the thorough tier) only.",
 }
 
 
@@ -173,6 +175,15 @@ def oracle(sc, r):
 
 # ---- widened histories: the resolution is re-configured during the run; events nudge their own track -------------------------
 HEADER_W = S.HEADER + "From Isobar Require Import Sched.Retick.\n"
+# Every configuration literal carries the fuel as `5000%nat`, a unary numeral of 5000 constructors that Coq elaborates (and writes
+# to the .vo) once per configuration: 70 % of the time of a case file.  The case files of this check define it once.
+HEADER_ALL = HEADER_W + "Definition fuel5k : nat := Z.to_nat %d.\n" % S.FUEL
+_FUEL_LIT = re.compile(r"(?<![0-9])%d%%nat\)" % S.FUEL)
+
+
+def cheap(term):
+    return _FUEL_LIT.sub("fuel5k)", term)
+
 TPBS_W = [1, 7, 10, 24, 48, 96, 100, 480, 512, 960, 1920, 2560]
 SEG_CAP = 1000         # ticks per segment
 
@@ -436,61 +447,6 @@ def simulate(w):
             "finished": (not w["cyclic"]) and k >= n, "changes": changes}
 
 
-def snap_prediction(w):
-    """Known finding C01-retick-snap, for classification only (NOT the oracle): the pinned Timeline.tick / Track.tick keep their
-    clocks on the grid of the resolution in force, current_time = round((current_time + 1/tpb) * tpb) / tpb, so the first tick
-    after a change made at a time off the new grid is between half a tick and one and a half ticks long.  This mirrors that
-    float computation for an immediately started, unmuted track; None if the scenario has anything else."""
-    tpb = w["tpb0"]
-    T = 0.0
-    tickno = idx = created = 0
-    main = w["main"]
-    started, tc, nxt, k, finished = False, 0.0, None, 0, False
-    durs, selfx, n = w["durs"], w["selfx"], len(w["durs"])
-    onsets, times = [], []
-    for o in w["ops"]:
-        kind = o[0]
-        if kind == "tick":
-            for _ in range(o[1]):
-                if started and not finished:
-                    if round(tc, 8) >= round(nxt, 8):
-                        last = None
-                        while round(tc, 8) >= round(nxt, 8):
-                            if not w["cyclic"] and k >= n:
-                                finished = True; last = None
-                                break
-                            last = k % n
-                            nxt += float(durs[k % n]); k += 1
-                        if last is not None:
-                            onsets.append((tickno, last))
-                            if selfx[last] != 0:
-                                nxt += float(selfx[last])
-                    if not finished:
-                        tc = round((tc + 1.0 / tpb) * tpb) / tpb
-                T = round((T + 1.0 / tpb) * tpb) / tpb
-                tickno += 1; idx += 1
-        elif kind == "set_tpb":
-            times.append((idx, T, tc))
-            tpb = o[1]
-        elif kind == "probe":
-            pass
-        else:
-            if kind == "schedule":
-                if created == main:
-                    if o[2] or o[3]:
-                        return None
-                    started, nxt = True, tc
-                created += 1
-            elif kind == "nudge" and o[1] == main:
-                if started:
-                    nxt += float(o[2])
-            elif kind in ("mute", "unmute"):
-                return None
-            idx += 1
-    times.append((idx, T, tc))
-    return {"onsets": onsets, "times": times}
-
-
 def observed_w(sc, r):
     sim = sc["_sim"]
     ons = []
@@ -516,7 +472,7 @@ def times_match(w, got, want, tol=1e-9):
 
 
 def oracle_w(sc, r):
-    """judge the implementation's trace of a widened history; returns (ok, detail, known_snap)"""
+    """judge the implementation's trace of a widened history; returns (ok, detail)"""
     w, sim = sc["_w"], sc["_sim"]
     exp = [(t, w["labels"][pos]) for t, pos in sim["onsets"]]
     ons = observed_w(sc, r)
@@ -531,15 +487,8 @@ def oracle_w(sc, r):
     if detail is None:
         detail = times_match(w, r["times"], want_times)
     if detail is None:
-        return True, "", False
-    known = False
-    if not sim["aligned"]:
-        sp = snap_prediction(w)
-        if sp is not None:
-            sexp = [(t, w["labels"][pos]) for t, pos in sp["onsets"]]
-            stimes = [(i, t, tt if track_alive else None) for i, t, tt in sp["times"]]
-            known = ons == sexp and times_match(w, r["times"], stimes) is None
-    return False, detail, known
+        return True, ""
+    return False, detail
 
 
 def eff_stream(s, selfx):
@@ -614,13 +563,15 @@ def python_snippet_w(fsc):
             "'{\"scenarios\": [<the scenario of this file>]}'   (or: ./check C01 --replay <this file>)")
 
 
-def check_widened(run):
+def widened_generate(run):
     rng = run.rng
     n_each = 140 if run.tier == "quick" else 2500
-    scs = ([gen_retick(rng, run.tier) for _ in range(n_each)] + [gen_selfnudge(rng, run.tier) for _ in range(n_each)]
-           + [gen_fault(rng, run.tier) for _ in range(n_each)])
-    fin = [G.finalize(strip(sc)) for sc in scs]
-    results = run_impl_w(run, fin)
+    return ([gen_retick(rng, run.tier) for _ in range(n_each)] + [gen_selfnudge(rng, run.tier) for _ in range(n_each)]
+            + [gen_fault(rng, run.tier) for _ in range(n_each)])
+
+
+def widened_judge(run, scs, fin, results):
+    """oracle verdicts and distribution of the widened histories; returns (indices not to be compared with the model, Coq terms)"""
     skip = set()
     for i, (sc, fsc, r) in enumerate(zip(scs, fin, results)):
         run.count()
@@ -669,15 +620,14 @@ def check_widened(run):
             if i % 97 == 0:
                 run.sample({"meta": m, "first_observations": r["obs"][:5]}, limit=8)
             continue
-        ok, detail, known = oracle_w(sc, r)
+        ok, detail = oracle_w(sc, r)
         run.cov["oracle_evaluations"] += 1
         if len(observed_w(sc, r)) >= 2:
             run.nontrivial(json.dumps(fsc, sort_keys=True))
         if not ok:
             skip.add(i)
             timey = detail.startswith("Timeline.current_time") or detail.startswith("Track.current_time")
-            kind = "retick-snap" if known else "retick-clock" if timey else "self-nudge-onset" if m["kind"] == "self-nudge" else "retick-onset"
-            if known: run.dist("retick.known-snap")
+            kind = "retick-clock" if timey else "self-nudge-onset" if m["kind"] == "self-nudge" else "retick-onset"
             run.violation({"kind": kind, "site": "Track.tick" if kind != "retick-clock" else "Timeline.tick"}, {
                 "scenario": fsc, "meta": m, "observed": detail,
                 "oracle": "exact simulation of the property: tick times = exact cumulative sums of the tick durations; event k on the "
@@ -694,27 +644,20 @@ def check_widened(run):
         elif not S.obs_well_typed(r["obs"]):
             terms.append("false")
         else:
-            terms.append(agrees_term_w(fsc, r["obs"]))
-    bad = run.coq_failing(HEADER_W, terms, chunk=24)
-    if bad:
-        spent = set(run.coq_failing(HEADER_W, ["negb (out_of_fuel_segs %s)" % coq_segments(fin[i]) for i in bad], chunk=24))
-        keep = []
-        for j, i in enumerate(bad):
-            if j in spent:
-                run.discard("model-out-of-fuel")
-            else:
-                keep.append(i)
-        bad = keep
+            terms.append(cheap(agrees_term_w(fsc, r["obs"])))
+    return skip, terms
+
+
+def widened_report(run, scs, fin, results, bad):
     for i in bad:
         doc = {"broken": "correspondence Sched/Model.v + Sched/Retick.v (run_segs) <-> isobar Timeline/Track on this history (the theorems "
-                         "C01_retick_* / C01_self_nudge of Props/C01.v no longer speak about this code)",
+                         "C01_retick_* / C01_self_nudge / C01_clocks_in_step of Props/C01.v no longer speak about this code)",
                "scenario": fin[i], "meta": scs[i]["meta"], "observed": results[i].get("obs"), "python": python_snippet_w(fin[i])}
         try:
             doc["model"] = model_trace_w(run, fin[i])
         except Exception as e:      # pragma: no cover
             doc["model"] = "unavailable: %s" % e
         run.violation({"kind": "correspondence-widened", "site": "Track.tick"}, doc, found_input=False)
-    return len(fin) - len(bad) - len(skip)
 
 
 # ---- histories with faults: a tick of a track that is cut short by an exception -------------------------------------------
@@ -966,15 +909,8 @@ def strip(sc):
     return {k: v for k, v in sc.items() if k not in ("_o", "_w", "_sim", "_f")}
 
 
-def check(run):
-    rng = run.rng
-    n = 1000 if run.tier == "quick" else 12000
-    scs = [gen_basic(rng, run.tier) for _ in range(n)] + [gen_basic(rng, run.tier, tie=True) for _ in range(n // 7)]
-    longs = [(24, 1200000), (480, 1200000)] if run.tier == "quick" else \
-            [(t, 5000000) for t in (24, 48, 96, 100, 480, 960, 1000, 1920)]
-    scs += [gen_long(rng, t, nt) for t, nt in longs]
-    fin = [G.finalize(strip(sc)) for sc in scs]
-    results = S.run_impl(run, fin, shards=14)
+def base_judge(run, scs, fin, results, first=0):
+    """oracle verdicts and distribution of the ordinary histories; returns the indices the oracle rejected"""
     bad_oracle = set()
     for i, (sc, fsc, r) in enumerate(zip(scs, fin, results)):
         run.count()
@@ -1003,21 +939,91 @@ def check(run):
             run.violation({"kind": "onset-tick", "site": "Track.tick"}, {
                 "scenario": fsc, "meta": sc["meta"], "observed": detail, "oracle": "exact-fraction closed form of the onset tick",
                 "trace_head": r["obs"][:12], "python": S.python_snippet(fsc)})
-        if i < 3:
+        if first + i < 3:
             run.sample({"meta": sc["meta"], "first_observations": r["obs"][:6]})
-    bad = S.model_disagreements(run, fin, results, chunk=24)
-    run.cov["traces_validated_against_impl"] = len(fin) - len(bad)
-    run.cov["traces_validated_against_impl"] += check_widened(run)
+    return bad_oracle
+
+
+def base_term(fsc, r):
+    if "driver_error" in r or not S.obs_well_typed(r["obs"]):
+        return "false"
+    return cheap(S.agrees_term(fsc, r["obs"]))
+
+
+def base_probe(fsc):
+    return cheap("out_of_fuel %s %s" % (S.coq_config(fsc), S.coq_history(fsc)))
+
+
+def long_pipeline(run, lfin):
+    """the long runs, off the critical path: implementation (one interpreter each), then the model (one coqc each)"""
+    results = S.run_impl(run, lfin, shards=max(1, len(lfin)))
+
+    def one(k):
+        t = base_term(lfin[k], results[k])
+        out = run.coqc_text("long%d" % k, HEADER_ALL + "\nDefinition results : list bool := [\n" + t + "\n].\n"
+                            "Eval vm_compute in failing results.\n", timeout=3000)
+        return bool(parse_nat_list(out))
+    with ThreadPoolExecutor(max_workers=max(1, len(lfin))) as ex:
+        bad = [k for k, b in enumerate(ex.map(one, range(len(lfin)))) if b]
+    return results, bad
+
+
+def check(run):
+    rng = run.rng
+    quick = run.tier == "quick"
+    n = 1000 if quick else 12000
+    scs = [gen_basic(rng, run.tier) for _ in range(n)] + [gen_basic(rng, run.tier, tie=True) for _ in range(n // 7)]
+    # quick: long enough for the float drift that repair 2bc35ef removed to show (it showed after 7*10^4 ticks at 24 PPQN and
+    # 5*10^5 ticks at 480 PPQN); the runs of several million ticks are the thorough tier's
+    longs = [(24, 300000), (480, 600000)] if quick else \
+            [(t, 5000000) for t in (24, 48, 96, 100, 480, 960, 1000, 1920)]
+    lscs = [gen_long(rng, t, nt) for t, nt in longs]
+    wscs = widened_generate(run)
+    fin = [G.finalize(strip(sc)) for sc in scs]
+    lfin = [G.finalize(strip(sc)) for sc in lscs]
+    wfin = [G.finalize(strip(sc)) for sc in wscs]
+    with ThreadPoolExecutor(max_workers=3) as ex:
+        f_long = ex.submit(long_pipeline, run, lfin)
+        f_w = ex.submit(run_impl_w, run, wfin)
+        results = S.run_impl(run, fin, shards=14)
+        wresults = f_w.result()
+        bad_oracle = base_judge(run, scs, fin, results)
+        wskip, wterms = widened_judge(run, wscs, wfin, wresults)
+        # one batch of case files for all histories
+        terms = [base_term(fsc, r) for fsc, r in zip(fin, results)] + wterms
+        probes = [base_probe(fsc) for fsc in fin] + ["out_of_fuel_segs %s" % cheap(coq_segments(fsc)) for fsc in wfin]
+        bad = run.coq_failing(HEADER_ALL, terms, chunk=48)
+        lresults, lbad = f_long.result()
+    lbad_oracle = base_judge(run, lscs, lfin, lresults, first=len(fin))
+    if lbad:
+        bad += [len(terms) + k for k in lbad]
+        probes += [base_probe(fsc) for fsc in lfin]
+    if bad:
+        # a history on which the model itself runs out of fuel (a catch-up loop of thousands of events within one tick) is not
+        # described by the model: discarded and counted, not reported
+        cand = [i for i in bad if i >= len(terms) or terms[i] != "false"]
+        spent = set(cand[j] for j in run.coq_failing(HEADER_ALL, ["negb (%s)" % probes[i] for i in cand], chunk=24))
+        for i in spent:
+            run.discard("model-out-of-fuel")
+        bad = [i for i in bad if i not in spent]
+    nb, nt = len(fin), len(terms)
+    run.cov["traces_validated_against_impl"] = nt + len(lfin) - len(bad) - len(wskip)
     for i in bad:
-        if i in bad_oracle:
-            continue
-        S.report_disagreement(run, fin[i], results[i], "correspondence", "Track.tick", {"meta": scs[i]["meta"]})
+        if i < nb:
+            if i not in bad_oracle:
+                S.report_disagreement(run, fin[i], results[i], "correspondence", "Track.tick", {"meta": scs[i]["meta"]})
+        elif i >= nt:
+            k = i - nt
+            if k not in lbad_oracle:
+                S.report_disagreement(run, lfin[k], lresults[k], "correspondence", "Track.tick", {"meta": lscs[k]["meta"]})
+    widened_report(run, wscs, wfin, wresults, [i - nb for i in bad if nb <= i < nt])
     run.cov["rule"] = ("one case = one history (ticks; schedule(q, d); ticks [; nudge; ticks]) of a track with a cycle of 1-6 durations "
-                       "(on/off grid) at one of 9 resolutions, or a > 10^6-tick run, or a widened history (resolution re-configured once or twice between "
+                       "(on/off grid) at one of 9 resolutions (or a multiple of 512), or a long run (quick: 3*10^5 and 6*10^5 ticks; thorough: 5*10^6), "
+                       "or a widened history (resolution re-configured once or twice between "
                        "ticks; events nudging their own track from an action / track callback / timeline callback; 1-3 tracks with a device / pattern / "
                        "callback fault, tolerant or not); distinct by scenario text; "
                        "non-trivial = at least two events performed")
-    run.cov["long_runs"] = [{"tpb": t, "ticks": nt} for t, nt in longs]
+    run.cov["long_runs"] = [{"tpb": t, "ticks": nt_} for t, nt_ in longs]
 
 
 def replay(run, doc):
